@@ -51,7 +51,7 @@ def model_configs(tier):
             ("shape", dict(MaxFiles=3), False),
             ("shape4", dict(MaxFiles=4, MaxLines=2), False),
             ("chain", dict(MaxFiles=8, MaxFan=1, MaxLines=2, MaxBack=0), False),
-            ("deepfan", dict(MaxFiles=8, MaxFan=2, MaxLines=2, Wants={5}, MaxBack=0, MaxMissing=0), False),
+            ("deepfan", dict(MaxFiles=7, MaxFan=2, MaxLines=2, Wants={5}, MaxBack=0, MaxMissing=0), False),
             ("resolve", dict(MaxFiles=3, MaxLines=2, Dirs={0, 1}, Styles={"rel", "abs"},
                              Entries={"file", "string"}, MaxBack=0), False),
             ("live_chdir", dict(MaxFiles=3, MaxLines=2, MaxFan=1, MaxMissing=0, Dirs={0, 1}, EnvChdir=True), True),
@@ -79,12 +79,15 @@ def negative_configs(tier):
     neg += [
         ("neg_cwd", dict(res, ResolveAgainst="cwd", EnvChdir=True), None, [],
          {"Equiv", "ErrMissingSound", "MissingIff", "PrefixOK"}),
-        ("neg_includer", dict(res, ResolveAgainst="includer"), None, [],
-         {"Equiv", "ErrMissingSound", "MissingIff", "PrefixOK"}),
         ("neg_unfair", dict(MaxFiles=2, MaxLines=1, MaxBack=0, MaxMissing=0), "SpecUnfair", ["Halts"], {"temporal"}),
-        ("neg_fair_next", dict(MaxFiles=2, MaxLines=1, MaxBack=0, MaxMissing=0, Dirs={0, 1}, EnvChdir=True),
-         "SpecNextFair", ["Halts"], {"temporal"}),
     ]
+    if tier != "quick":
+        neg += [
+            ("neg_includer", dict(res, ResolveAgainst="includer"), None, [],
+             {"Equiv", "ErrMissingSound", "MissingIff", "PrefixOK"}),
+            ("neg_fair_next", dict(MaxFiles=2, MaxLines=1, MaxBack=0, MaxMissing=0, Dirs={0, 1}, EnvChdir=True),
+             "SpecNextFair", ["Halts"], {"temporal"}),
+        ]
     return neg
 
 
@@ -745,14 +748,14 @@ def run(tier):
             raise common.MachineryFailure("only %d usable documents" % len(usable))
         rng = random.Random(seed * 7919 + 15)
         # (the public functions build a Parser per call, 165 ms: every third graph in the quick tier, the
-        #  first 3000 and every tenth afterwards in the thorough tier; the others go through the same
+        #  first 1500 and every twentieth afterwards in the thorough tier; the others go through the same
         #  Parser methods - parse_file, load, parse - on a reused Parser)
         jobs = []
         for idx, g in enumerate(graphs):
             h = usable[rng.randrange(len(usable))]
             nl = "\r\n" if rng.random() < 0.4 else "\n"
-            public = (idx % 3 == 0) if quick else (idx < 3000 or idx % 10 == 0)
-            jobs.append((g, h, seed * 100000 + idx, seed * 100003 + idx, nl, idx, public, idx % 8 == 0))
+            public = (idx % 3 == 0) if quick else (idx < 1500 or idx % 20 == 0)
+            jobs.append((g, h, seed * 100000 + idx, seed * 100003 + idx, nl, idx, public, idx % (8 if quick else 16) == 0))
         with pool:
             for idx, ev, found, sample in pool.imap_unordered(_pool_job, jobs, chunksize=4):
                 g = graphs[idx]
